@@ -327,6 +327,17 @@ func (w *World) verifyFunc(p pkgT, cs *ContractSet, ct *Contract) (res *UnitResu
 		final.ghost[fmt.Sprintf("r%d", i)] = rv
 	}
 	x.runGhost(final, ct.Exit, "exit", body)
+	// a call anchor that matched no call site is a vacuity hole (its ghost statements and assertions never ran)
+	var dead []string
+	for a := range ct.CallGhost {
+		if !x.anchorsHit[a] {
+			dead = append(dead, a)
+		}
+	}
+	if len(dead) > 0 {
+		sort.Strings(dead)
+		panic(unsupported{x.fullKey + ": call anchor matches no call site: " + strings.Join(dead, ", ")})
+	}
 	env := x.specEnv(final)
 	for i := 0; i < nres && i < len(final.ret); i++ {
 		rv := final.ret[i]
